@@ -25,35 +25,35 @@ var c06BufSizes = []int{16, 64, 2048, 4096}
 
 // c06Hostile are hand written inputs (hex) that historically break MQTT decoders.
 var c06Hostile = []string{
-	"30ffffff7f",           // PUBLISH declaring 256 MiB, no body
-	"1080808080" + "01",    // CONNECT with a 5 byte remaining length
-	"82ffffff7f0001",       // SUBSCRIBE declaring 256 MiB, 2 body bytes
-	"c080808080" + "8001",  // PINGREQ with a 6 byte remaining length
-	"40ffffff7f0001",       // PUBACK declaring 256 MiB
-	"10ffffff7f00044d515454", // CONNECT declaring 256 MiB
-	"e0ffffff7f",           // DISCONNECT declaring 256 MiB
-	"62ffffffff",           // PUBREL: four continuation bytes, then end of input
-	"f0ffffff7f00",         // AUTH declaring 256 MiB
-	"20ffff7f",             // CONNACK declaring 2 MiB
-	"c0",                   // PINGREQ without a length byte
-	"c08000",               // non canonical zero
-	"3080",                 // length cut inside the variable byte integer
-	"00",                   // reserved type
-	"",                     // nothing
-	"ffffffffffffffffffff", // all ones
-	"80808080808080808080808080808080", // continuation bits only
-	"3007ffff61",                       // PUBLISH: topic length beyond the end
-	"300400016100" + "",                // PUBLISH v5 empty props / v3 payload 00
-	"300a0001610bffffffff7f00",         // PUBLISH v5: property length 268435455
-	"300700016103260001",               // PUBLISH v5: user property cut
-	"3009000161050b010b02",             // PUBLISH v5: duplicate subscription identifier
-	"3008000161040101010100",           // PUBLISH v5: duplicate payload format
+	"30ffffff7f",                           // PUBLISH declaring 256 MiB, no body
+	"1080808080" + "01",                    // CONNECT with a 5 byte remaining length
+	"82ffffff7f0001",                       // SUBSCRIBE declaring 256 MiB, 2 body bytes
+	"c080808080" + "8001",                  // PINGREQ with a 6 byte remaining length
+	"40ffffff7f0001",                       // PUBACK declaring 256 MiB
+	"10ffffff7f00044d515454",               // CONNECT declaring 256 MiB
+	"e0ffffff7f",                           // DISCONNECT declaring 256 MiB
+	"62ffffffff",                           // PUBREL: four continuation bytes, then end of input
+	"f0ffffff7f00",                         // AUTH declaring 256 MiB
+	"20ffff7f",                             // CONNACK declaring 2 MiB
+	"c0",                                   // PINGREQ without a length byte
+	"c08000",                               // non canonical zero
+	"3080",                                 // length cut inside the variable byte integer
+	"00",                                   // reserved type
+	"",                                     // nothing
+	"ffffffffffffffffffff",                 // all ones
+	"80808080808080808080808080808080",     // continuation bits only
+	"3007ffff61",                           // PUBLISH: topic length beyond the end
+	"300400016100" + "",                    // PUBLISH v5 empty props / v3 payload 00
+	"300a0001610bffffffff7f00",             // PUBLISH v5: property length 268435455
+	"300700016103260001",                   // PUBLISH v5: user property cut
+	"3009000161050b010b02",                 // PUBLISH v5: duplicate subscription identifier
+	"3008000161040101010100",               // PUBLISH v5: duplicate payload format
 	"101000044d5154540502003c032100140000", // CONNECT v5 with receive maximum
 	"100c00044d515454041e003c0000",         // CONNECT v4 will qos 3, no will payload
 	"101600064d51497364700302003c000863303674657374", // CONNECT v3.1
-	"8206000100012b00", // SUBSCRIBE "+"
-	"820700010002" + "2b61" + "00",    // SUBSCRIBE "+a"
-	"a2050001000123",                  // UNSUBSCRIBE "#"
+	"8206000100012b00",                   // SUBSCRIBE "+"
+	"820700010002" + "2b61" + "00",       // SUBSCRIBE "+a"
+	"a2050001000123",                     // UNSUBSCRIBE "#"
 	"62020001", "60020001", "6203000192", // PUBREL forms
 	"e00100", "e0028100", "f0021800", "f00118",
 	"2002ff00", "20020105", "200300000" + "0",
